@@ -147,6 +147,37 @@ pub fn run(rec: &mut Recorder, w: &mut World, tier: &str, seed: u64) {
         compare(rec, w, k, &shadow, None, &descr, "kept-role-manager-handed-back");
         rec.nontrivial_case(&descr.join("|"));
     } }
+    // (1c) the installed role manager is edited through the handle the caller holds (a stray link, or emptied) and the very
+    //      same handle is handed to set_role_manager: the call rebuilds the links from the stored rules, like a fresh enforcer
+    for k in fam.iter().filter(|k| !k.g.is_empty()) { for it in 0..n_dir {
+        rec.begin();
+        let mut shadow = gen_lines(&mut rng, k);
+        let m = model_of(k, E_ALLOW, false, "", false);
+        if new_enforcer(rec, w, &m, "memory", &shadow, "", false) != "ok" { continue; }
+        let mut descr = vec![format!("start {} with {:?}", k.name, shadow)];
+        rec.exec(w, "e.keeprm");
+        for _ in 0..rng.below(3) {
+            let gi = rng.below(k.g.len());
+            let r = rng.pick(&k.links[gi]).clone(); let mut l = vec!["g".to_string(), k.g[gi].0.clone()]; l.extend(r.clone());
+            let op = MOp::Add("g".into(), k.g[gi].0.clone(), r);
+            let out = rec.exec(w, &op.line());
+            if out == "true" && !shadow.contains(&l) { shadow.push(l); }
+            descr.push(format!("{} -> {}", op.line().replace('\t', " "), out));
+        }
+        if it % 3 == 2 { descr.push(format!("handle.clear() -> {}", rec.exec(w, "e.rmh\tclear"))); }
+        else {
+            for _ in 0..1 + rng.below(2) {
+                let gi = rng.below(k.g.len());
+                let r = rng.pick(&k.links[gi]).clone();
+                let dom = if r.len() > 2 { esc(&r[2]) } else { "-".to_string() };
+                descr.push(format!("handle.add_link({:?}) -> {}", r, rec.exec(w, &format!("e.rmh\tadd\t{}\t{}\t{}", esc(&r[0]), esc(&r[1]), dom))));
+            }
+        }
+        let _ = observe(rec, w, k);
+        descr.push(format!("set_role_manager(the same handle) -> {}", rec.exec(w, "e.setrm\tkept")));
+        compare(rec, w, k, &shadow, None, &descr, "installed-role-manager-edited-and-handed-back");
+        rec.nontrivial_case(&descr.join("|"));
+    } }
     // (1b) set_role_manager while a stored grouping rule cannot be linked (the rebuild fails), the bad rule removed
     //      afterwards and the history continued: the enforcer must not stay split between two managers
     //      (one role definition, the bad rule last: a failed rebuild has then linked every other stored rule; with
@@ -174,6 +205,31 @@ pub fn run(rec: &mut Recorder, w: &mut World, tier: &str, seed: u64) {
         compare(rec, w, k, &shadow, None, &descr, "set-role-manager-with-failing-rebuild");
         rec.nontrivial_case(&descr.join("|"));
     } }
+    // (3) the adapter stays while the enforcer is reconfigured: after a filtered load that left rules out, a set_model (which
+    //     reloads everything through the kept adapter) or a plain load_policy; the filtered flag and what save_policy
+    //     answers must then be those of a fresh enforcer over the same store
+    for kind in ["string", "file", "memory"] { for k in fam.iter().filter(|k| k.name == "acl" || k.name == "rbac") { for it in 0..(n_dir / 2).max(3) {
+        rec.begin();
+        let mut lines = gen_lines(&mut rng, k);
+        if !lines.iter().any(|l| l[0] == "p" && l[2] == "bob") { lines.push(sv(&["p", "p", "bob", "data2", "write"])); }
+        if !lines.iter().any(|l| l[0] == "p" && l[2] == "alice") { lines.push(sv(&["p", "p", "alice", "data1", "read"])); }
+        let text: String = lines.iter().map(|l| format!("{}\n", l[1..].join(", "))).collect();
+        let m = model_of(k, E_ALLOW, false, "", false);
+        if new_enforcer(rec, w, &m, kind, &lines, &text, false) != "ok" { continue; }
+        let mut descr = vec![format!("start {} over a {} adapter holding {:?}", k.name, kind, lines)];
+        descr.push(format!("load_filtered_policy(p: [alice]) -> {}", rec.exec(w, &format!("e.loadf\t{}\t{}", enc_list(&sv(&["alice"])), enc_list(&Vec::<String>::new())))));
+        descr.push(format!("is_filtered -> {}", rec.exec(w, "e.filtered")));
+        if it % 2 == 0 { m.emit(rec, w); descr.push(format!("set_model(the same model) -> {}", rec.exec(w, "e.setmodel"))); }
+        else { descr.push(format!("load_policy -> {}", rec.exec(w, "e.load"))); }
+        let a = format!("{} | filtered={} | save={}", observe(rec, w, k), rec.exec(w, "e.filtered"), rec.exec(w, "e.save"));
+        let r0 = new_enforcer(rec, w, &m, kind, &lines, &text, false);
+        if r0 == "ok" {
+            let bfresh = format!("{} | filtered={} | save={}", observe(rec, w, k), rec.exec(w, "e.filtered"), rec.exec(w, "e.save"));
+            if a != bfresh { rec.fail("reconfigured-differs-from-fresh", format!("[adapter-kept-after-filtered-load] {}: reconfigured {} but fresh {}", descr.join(" ; "), a, bfresh)); }
+        }
+        rec.count(&format!("directed:adapter-kept-after-filtered-load:{}", kind));
+        rec.nontrivial_case(&descr.join("|"));
+    } } }
     // (2) a function registered again under the same name
     let kf = fam.iter().find(|k| k.name == "acl-user-function").unwrap().clone();
     for a in ["eq", "ne", "true"] { for bimp in ["eq", "ne", "true"] { for _ in 0..(n_dir / 6).max(1) {
